@@ -216,7 +216,13 @@ def _atheris_campaign(prop_id, seed, runs, size):
         for d, p in procs:
             _, err = p.communicate()
             if p.returncode != 0:
-                return {'error': 'atheris worker failed (exit %s):\n%s' % (p.returncode, err[-3000:])}
+                # the reason is rarely at the very end (libFuzzer prints its statistics and dictionary last)
+                lines = err.splitlines()
+                marks = [i for i, l in enumerate(lines) if 'Traceback' in l or 'ERROR' in l or 'Uncaught' in l
+                         or 'deadly signal' in l or 'timeout' in l.lower()]
+                first = max(0, marks[0] - 3) if marks else max(0, len(lines) - 40)
+                return {'error': 'atheris worker failed (exit %s):\n%s' % (p.returncode,
+                                                                           '\n'.join(lines[first:first + 60]))}
             n = 0
             for line in err.splitlines():
                 if line.startswith('stat::number_of_executed_units:'):
